@@ -273,15 +273,21 @@ def stmtStep (reg : Registry) (scope : List Path) (acc : StmtAcc) (ist : Nat × 
     | some doc =>
       match Res.foldlM fieldAttrStep {} st.attrs with
       | .ok fa =>
+        if fa.isBase && name == "_" then .err "a `#[base]` field has no name" else
         match reg.resolveTy scope ty with
         | .ok t =>
+          let ident : Option String := if name != "_" then some name else none
+          if ident.isSome && acc.pending.any (fun p => p.2.name == ident) then
+            .err "type has more than one field of that name"
+          else
           .ok { acc with pending := acc.pending ++
-            [(fa.address, { vis, name := if name != "_" then some name else none, doc,
-                            ty := .data t, isBase := fa.isBase })] }
+            [(fa.address, { vis, name := ident, doc, ty := .data t, isBase := fa.isBase })] }
         | e => e.cast
       | e => e.cast
   | .vftable fns =>
     if idx != 0 then .err "vftable field must be the first field"
+    else if fns.any (fun f => !(f.args.any fun a => match a with | .named .. => false | _ => true)) then
+      .err "virtual function has no `&self` or `&mut self` argument"
     else
       match vftableSizeAttr st.attrs with
       | .ok size =>
@@ -467,6 +473,8 @@ def enumStmtStep (range : Int × Int) (acc : EnumAcc) (st : G.EnumStmt) : Res En
       | none => .err "value for case does not fit in an isize") with
   | .ok value =>
     if value < range.1 || value > range.2 then .err "value does not fit in the enum's base type" else
+    if acc.fields.any (fun nv => nv.1 == st.name || nv.2 == value) then
+      .err "case has the same name or value as an earlier case" else
     let fields := acc.fields ++ [(st.name, value)]
     match Res.foldlM (fun (di : Option Nat) (a : G.Attr) =>
         match a with
@@ -507,6 +515,7 @@ def buildEnum (s : State) (path : Path) (d : G.EnumDef) : Res Resolved :=
         match intTypeRange ty with
         | none => .err "the base type of the enum is not a built-in integer type"
         | some range =>
+        if d.stmts.isEmpty then .err "enum has no cases" else
         match Res.foldlM (enumStmtStep range) {} d.stmts with
         | .ok acc =>
           match G.docOf d.attrs with
